@@ -15,7 +15,7 @@
                              chromosome by chromosome in BAM order, those overlapping some region, once *)
 From Coq Require Import ZArith List Bool Arith Lia Sorted Permutation.
 From WH.Model Require Import Haplotag.
-From WH.Proofs Require Import HaplotagProofs HaplotagTags HaplotagStream HaplotagSwap HaplotagExtra.
+From WH.Proofs Require Import HaplotagProofs HaplotagTags HaplotagClouds HaplotagStream HaplotagSwap HaplotagExtra.
 Import ListNotations.
 Open Scope Z_scope.
 
@@ -110,6 +110,33 @@ Theorem C10_model_satisfies_tag_spec : forall (cfg : config) (c : chrom) (alns :
   tags_ok_chrom cfg c alns (map (out_rec cfg (prepare cfg (c_samples c))) alns) = true.
 Proof. exact model_satisfies_tag_spec. Qed.
 Print Assumptions C10_model_satisfies_tag_spec.
+
+(* linked reads, stated without reference to the processing order (linked_tag_ok, model/Haplotag.v): if
+   exactly one detected read r (of sample s) has the alignment's name, r carries barcode b, the read names
+   of s's read set are distinct and "within the cut-off of each other" is transitive among the reads of s
+   with barcode b (well separated clouds), then an alignment tagged through its own read (PC present)
+   carries the strict best haplotype, within the reported phase set, of the whole cloud of r = all reads of
+   the barcode within the cut-off of r — wherever in the read set they are listed. *)
+Theorem C10_linked_cloud_best : forall (cfg : config) (samples : list sample_in) (a : aln),
+  (2 <= ploidy cfg)%nat -> 0 <= cutoff cfg ->
+  linked_tag_ok cfg samples a (tag_aln cfg (prepare cfg samples) a) = true.
+Proof. exact model_satisfies_linked_tag_spec. Qed.
+Print Assumptions C10_linked_cloud_best.
+
+(* the same for the predicate the harness evaluates on the written records of a chromosome *)
+Theorem C10_model_satisfies_linked_tag_spec : forall (cfg : config) (c : chrom) (alns : list aln),
+  (2 <= ploidy cfg)%nat -> 0 <= cutoff cfg ->
+  linked_tags_ok_chrom cfg c alns (map (out_rec cfg (prepare cfg (c_samples c))) alns) = true.
+Proof. exact model_satisfies_linked_tags_chrom. Qed.
+Print Assumptions C10_model_satisfies_linked_tag_spec.
+
+(* the hypothesis on the cut-off is needed: with a negative cut-off no read is within it of itself *)
+Theorem C10_linked_cloud_negative_cutoff_refuted : exists cfg samples a,
+  (2 <= ploidy cfg)%nat /\ cutoff cfg = -1 /\
+  tag_aln cfg (prepare cfg samples) a = (Some 1, Some 100, Some 30) /\
+  linked_tag_ok cfg samples a (tag_aln cfg (prepare cfg samples) a) = false.
+Proof. exact linked_tag_spec_needs_cutoff. Qed.
+Print Assumptions C10_linked_cloud_negative_cutoff_refuted.
 
 (* ---- 2. swap symmetry ------------------------------------------------------------------------ *)
 
@@ -338,6 +365,14 @@ Proof.
     repeat (destruct Hin as [<-|Hin]; [cbn; lia|]). destruct Hin.
   - split; vm_compute; reflexivity.
 Qed.
+
+(* the cloud rule applies to this input (barcode 7 of sample 0: reads 3 and 4 within the cut-off) *)
+Example C10_example_cloud_rule :
+  linked_tags_ok_chrom x_cfg (nth 0 x_chroms (mkChrom [] [])) x_alns
+    (map (out_rec x_cfg (prepare x_cfg x_samples)) x_alns) = true /\
+  clouds_separated x_cfg (bx_reads 7 x_reads0) = true /\
+  length (cloud_of x_cfg (bx_reads 7 x_reads0) (nth 2 x_reads0 (mkRead 0 0 None []))) = 2%nat.
+Proof. vm_compute. repeat split. Qed.
 
 (* swap symmetry on this input: exchanging the haplotypes of phase set 200 flips exactly records 103-105 *)
 Example C10_example_swap :
